@@ -1075,7 +1075,9 @@ def run(rep: C.Report, tier: str) -> int:
              "half the cases with dyadic bound boxes (reflections counted), compared exactly; plus arbitrary-double "
              "cases incl. random SPD mass matrices at 1e-12; hamiltonian / kinetic_energy on the same families; "
              "sample_momentum with a scripted generator; finite_diff with a scripted posterior at points with zero, "
-             "tiny and ordinary coordinates; distinct = distinct serialised inputs")
+             "tiny and ordinary coordinates, and (Model.FiniteDiffBounded) inside a bounds box with points on the wall the "
+             "relative step points at, on the other wall and inside; a share of the chains has an estimate_mass "
+             "history before the compared trajectory; distinct = distinct serialised inputs")
 
 
 # ------------------------------------------------------------------ replay
